@@ -180,6 +180,10 @@ public:
     if (const auto *RD = dyn_cast<CXXRecordDecl>(D))
       if (RD->isLambda())
         N = "(lambda)";
+    if (const auto *TD = dyn_cast<TagDecl>(D))
+      if (!TD->getIdentifier())
+        if (const TypedefNameDecl *TN = TD->getTypedefNameForAnonDecl())
+          N = TN->getNameAsString();
     return P.empty() ? N : P + "::" + N;
   }
 
